@@ -10,7 +10,8 @@ Import ListNotations.
 Open Scope N_scope.
 
 (* delivered (file index in c_fs, entry id) pairs; index 999 = a path that is not in the tree.
-   st: 0 Ok | 1 IO NotFound | 2 IO other | 3 Parse | 4 other LoadError | 5 panic *)
+   st: 0 Ok | 1 IO NotFound | 2 IO other | 3 Parse | 4 other LoadError | 5 panic |
+   6 the process running the loader aborted (stack overflow) or hung *)
 Inductive lobs := LObs (trace : list (N * N)) (st : N).
 
 Record case := {
@@ -63,6 +64,7 @@ Definition spec_holds (c : case) : bool :=
   | LObs t st =>
       lobs_eqb (c_fake c) (c_real c) &&          (* the real and the in-memory file system agree *)
       attributed (c_fs c) t &&
+      negb (5 <=? st) &&                         (* the trees are acyclic: no crash, no hang *)
       match c_kind c with
       | 0 => (st =? 0) && list_eqb N.eqb (map snd t) (c_ledger c) && (c_bal c =? 1)
       | 1 => (st =? 1) && prefix_eqb (map snd t) (c_ledger c)
